@@ -17,24 +17,48 @@ variable {g : Graph}
 
 /-- an event that seals the fate of a handler of try `y` that did not start -/
 def sealsFate (g : Graph) (y h : Nat) (e : Ev) : Prop :=
-  e = .done h false ∨ ∃ h' ∈ g.handlers y, e = .hrej h'
+  e = .done h false ∨ e = .hacc h ∨ ∃ h' ∈ g.handlers y, e = .hrej h'
+
+/-- a list splits at the first occurrence of one of its elements -/
+theorem beforeEv_split {e : Ev} {l : List Ev} (h : e ∈ l) : ∃ b, l = beforeEv e l ++ e :: b := by
+  unfold beforeEv
+  induction l with
+  | nil => cases h
+  | cons x xs ih =>
+    by_cases hx : x = e
+    · subst hx; exact ⟨xs, by simp [List.takeWhile]⟩
+    · have hm : e ∈ xs := by
+        rcases List.mem_cons.mp h with h1 | h1
+        · exact absurd h1.symm hx
+        · exact h1
+      obtain ⟨b, hb⟩ := ih hm
+      refine ⟨b, ?_⟩
+      have : (x != e) = true := by simpa using hx
+      simp only [List.takeWhile, this, List.cons_append]
+      rw [← hb]
 
 /-- a handler that met its fate either started, or the trace splits at a sealing event with a cause of
 failure in the owner's or the root context strictly before it -/
 theorem fate_timed (hw : WF g) {pre : List Ev} (hok : TraceOk g pre) {y h : Nat} (hy : y < g.tries.length)
     (hh : h ∈ g.handlers y) (hf : handlerFate g pre y h) :
     Ev.cmd h 0 ∈ pre ∨ ∃ a e b, pre = a ++ e :: b ∧ sealsFate g y h e ∧ causeFor g a (g.tryd y).owner := by
-  rcases hf with h1 | ⟨_, hd⟩ | ⟨h', hm, hr⟩
+  have hctx := (handler_facts hw hy hh).2.1
+  rcases hf with h1 | ⟨_, hd | ⟨hm, hc⟩⟩ | ⟨h', hm, hr⟩
   · exact Or.inl h1
   · obtain ⟨a, b, hs, hk⟩ := traceOk_mem hok hd
     refine Or.inr ⟨a, _, b, hs, Or.inl rfl, ?_⟩
     have := hk.2.2
     simp only [Bool.false_eq_true, if_false] at this
     unfold causeFor at this ⊢
-    rw [(handler_facts hw hy hh).2.1] at this
+    rw [hctx] at this
     exact this
+  · obtain ⟨b, hb⟩ := beforeEv_split hm
+    refine Or.inr ⟨_, _, b, hb, Or.inr (Or.inl rfl), ?_⟩
+    unfold causeFor at hc ⊢
+    rw [hctx] at hc
+    exact hc
   · obtain ⟨a, b, hs, hk⟩ := traceOk_mem hok hr
-    exact Or.inr ⟨a, _, b, hs, Or.inr ⟨h', hm, rfl⟩, Or.inr hk.2.2⟩
+    exact Or.inr ⟨a, _, b, hs, Or.inr (Or.inr ⟨h', hm, rfl⟩), Or.inr hk.2.2⟩
 
 /-- the untimed consequence (the clause as it was before): started, or a cause somewhere before -/
 theorem fate_cause (hw : WF g) {pre : List Ev} (hok : TraceOk g pre) {y h : Nat} (hy : y < g.tries.length)
@@ -59,7 +83,19 @@ theorem fate_at_close (hw : WF g) {tr pre post : List Ev} (htr : TraceOk g tr) {
   have hcl := (htr pre _ post hs).2.1 i (List.mem_range.mpr (cmdAt_lt hc)) (cmd_of_ret hpre hret)
   have := hcl.2 hret
   rw [hc] at this
-  exact this.2.2 h hsel
+  exact this.2.2.2 h hsel
+
+/-- in the MODEL the owner of a try block never leaves the `pip:try` command while a handler that was
+accepted has not closed (the implementation does — finding KF-C16-1 — when the handler was accepted
+into a context that had already failed; the monitor tolerates exactly that case, `acceptedAfterCause`) -/
+theorem accepted_closed_when_owner_leaves (hw : WF g) {s : St} (hI : Inv g s) {y h : Nat} (hy : y < g.tries.length)
+    (hh : h ∈ g.handlers y) (hna : s.pc (g.tryd y).owner ≠ .afterCmd (g.tryd y).idx)
+    (hacc : Ev.hacc h ∈ s.tr) : hasDone s.tr h := by
+  have ha := hI.ha h hacc
+  have : s.pc h = .finished := by
+    apply finished_of_not_parentAt hI ha
+    exact not_parentAt (handler_facts hw hy hh).2.2 hna
+  exact ((hI.ti h).fin this).1
 
 /-! ### The order of submission inside the try goroutine -/
 
